@@ -462,7 +462,7 @@ func runCheck(prop, tier string) int {
 					lmu.Unlock()
 					limit := 600 * time.Second
 					if tier == "quick" {
-						limit = 150 * time.Second
+						limit = 400 * time.Second
 					}
 					if silent > limit {
 						hung = true
